@@ -922,23 +922,53 @@ pub fn run(s: &mut Sink) {
     s.meta.insert("alphabet".into(), json!({
         "actions": "new(None|prog), set_program(prog[, offsets]), set_verifier(default-like|accept-all|reject-all|only-B), register_helper(f|g), set_stack_usage_calculator, jit_compile, cranelift_compile, execute_program, execute_program_jit, execute_program_cranelift",
         "programs": {"A": "returns 1", "B": "returns 2", "H": "returns helper 1's value", "X": "call kind 2: rejected by the default verifier, an error in every engine", "M": "ldabsb 0 (depends on the packet)", "L": "local call returning the caller's frame size (calculator)", "D": "fixed VM: data_end - data through the configured offsets", "R": "fixed VM: first 8 bytes of the internal buffer (zero unless the offsets put a pointer there)"},
-        "vm_kinds": if tier == Tier::Quick {"part 0: Raw, Fixed; part 1: Fixed, Mbuff"} else {"Raw, Fixed, Mbuff, NoData"},
+        "vm_kinds": if tier == Tier::Quick {"part 0: Raw, Fixed, Mbuff, NoData (one exploration per kind: kinds never interact); part 1: Fixed (two program sets: A D O M / A D R S), Mbuff; part 2: NoData, Fixed"} else {"Raw, Fixed, Mbuff, NoData"},
         "post_state_probe": "execute on two packets, execute_jit, execute_cranelift, a set_program that must fail and change nothing, execute again",
     }));
     s.meta.insert("bound".into(), json!("breadth-first search to the fix-point of the abstract state space (no depth cut); stateright 0.31"));
     s.meta.insert("rule".into(), json!("states = unique abstract VM states found by stateright; transitions = next_state calls, each one a replay of the state's history on a fresh real VM plus the action plus the probe; non-trivial = transitions whose action is not a self-loop"));
     s.meta.insert("assumptions".into(), json!(["two histories reaching the same abstract state behave alike - checked (not assumed) on every edge by the post-state probe", "helpers registered after compiling: either binding accepted (compile-time binding is the documented contract)"]));
+    // VM objects of different kinds never interact, so the state space of a configuration is the
+    // disjoint union of its per-kind sub-spaces: the quick tier explores each in a process of its own
+    // (the fixed-metadata sub-space of part 1, the largest by far, is further explored as two program
+    // sets in the quick tier; the thorough tier explores all its programs together)
+    let mut plan: Vec<(usize, Option<K>, Option<Vec<P>>)> = vec![];
     for part in 0..3usize {
-        if !s.take(part as u64) {
+        if tier == Tier::Quick && part < 2 {
+            for k in cfg_for(tier, part).kinds {
+                if part == 1 && k == K::Fixed {
+                    plan.push((part, Some(k), Some(vec![P::A, P::D, P::O, P::M])));
+                    plan.push((part, Some(k), Some(vec![P::A, P::D, P::R, P::S])));
+                } else {
+                    plan.push((part, Some(k), None));
+                }
+            }
+        } else {
+            plan.push((part, None, None));
+        }
+    }
+    let after_error_idx = plan.len() as u64;
+    for (idx, (part, only_kind, only_progs)) in plan.into_iter().enumerate() {
+        if !s.take(idx as u64) {
             continue;
         }
-        s.mark(part as u64, "api", &json!({"kind":"none"}));
-        let threads = 8;
-        let (m, unique, total, depth) = run_model(cfg_for(tier, part), threads);
+        s.mark(idx as u64, "api", &json!({"kind":"none"}));
+        let threads = match only_kind { Some(K::Fixed) => 4, Some(_) => 2, None => 8 }; // the fixed-metadata sub-space (offset pairs) is by far the largest
+        let mk = || {
+            let mut c = cfg_for(tier, part);
+            if let Some(k) = only_kind {
+                c.kinds = vec![k];
+            }
+            if let Some(ps) = &only_progs {
+                c.progs = ps.clone();
+            }
+            c
+        };
+        let (m, unique, total, depth) = run_model(mk(), threads);
         // determinism (the model must be a function of the abstract state): run again, compare
         // (thorough tier; the quick tier explores once)
         if tier == Tier::Thorough {
-            let (m2, unique2, _total2, _d2) = run_model(cfg_for(tier, part), threads);
+            let (m2, unique2, _total2, _d2) = run_model(mk(), threads);
             if unique != unique2 || m.transitions.load(Ordering::Relaxed) != m2.transitions.load(Ordering::Relaxed) {
                 s.violation("harness/api/nondeterministic-state-space", format!("two runs explored {unique}/{unique2} states"), json!({"kind":"none"}));
             }
@@ -957,13 +987,16 @@ pub fn run(s: &mut Sink) {
             s.violation(&x.sig, x.detail.clone(), json!({"kind":"api","history":hist_json(&x.hist),"jit": m.cfg.jit, "cl": m.cfg.cl}));
         }
         s.sample(&format!("part{part}"), || json!({"history": ["New(Fixed, Some(A))", "JitCompile", "SetProgram(B, 1)", "ExecJit"], "meaning": "each abstract transition replays such a history on a fresh VM"}));
-        s.done(&format!("configuration part {part}: fix-point reached"));
+        match only_kind {
+            Some(k) => s.done(&format!("configuration part {part}, {k:?} VMs{}: fix-point reached", only_progs.as_ref().map(|p| format!(", programs {p:?}")).unwrap_or_default())),
+            None => s.done(&format!("configuration part {part}: fix-point reached")),
+        }
     }
     // "not on earlier executions" - in particular not on an earlier execution that failed: the
     // after-error family of the isa engine (a failing / succeeding writer, then a reader of the same
     // stack slots on the same VM object, against the reader on a fresh VM), on all four VM kinds
-    if s.take(3) {
-        s.mark(3, "api", &json!({"kind":"none"}));
+    if s.take(after_error_idx) {
+        s.mark(after_error_idx, "api", &json!({"kind":"none"}));
         crate::isaeng::l6_after_error(s);
         s.done("executions after a failed execution (interpreter, 4 VM kinds x 6 failure modes x 4 readers x 2 orders)");
     }
